@@ -8,6 +8,7 @@ import (
 	"github.com/grindlemire/go-lucene/pkg/driver"
 	"github.com/grindlemire/go-lucene/pkg/lucene/expr"
 	"github.com/grindlemire/go-lucene/pkg/lucene/reduce"
+	"math"
 	"strconv"
 	"strings"
 )
@@ -155,6 +156,21 @@ func DecimalInt(s string) int    { v, _ := strconv.Atoi(s); return v }
 // IsFloatText: the word is a decimal number as strconv.ParseFloat reads it.
 func IsFloatText(s string) bool { _, err := strconv.ParseFloat(s, 64); return err == nil }
 
+// FloatOf: the number strconv.ParseFloat reads.
+func FloatOf(s string) float64 { f, _ := strconv.ParseFloat(s, 64); return f }
+
+// IsNumberText: a word that is a FINITE decimal number; NaN and the infinities are words
+// (they have no SQL or JSON number form).
+func IsNumberText(s string) bool {
+	return IsFloatText(s) && !math.IsNaN(FloatOf(s)) && !math.IsInf(FloatOf(s), 0)
+}
+
+// IsFloatVal: a holds exactly the float64 f.
+func IsFloatVal(a any, f float64) bool {
+	v, ok := a.(float64)
+	return ok && verifspec.SameFloat(v, f)
+}
+
 // ---- literals --------------------------------------------------------------------------------------
 
 //@ func parseLiteral
@@ -165,8 +181,9 @@ func IsFloatText(s string) bool { _, err := strconv.ParseFloat(s, 64); return er
 //@   ensures[quoted-is-string] token.Typ == lex.TQuoted ==> reduce.E(e).Op == expr.Literal && reduce.E(e).Left == any(strings.ReplaceAll(token.Val, "\"", ""))
 //@   ensures[regexp] token.Typ == lex.TRegexp ==> reduce.E(e).Op == expr.Regexp && reduce.E(e).Left == any(token.Val)
 //@   ensures[decimal-integer] token.Typ == lex.TLiteral && IsDecimalInt(token.Val) ==> reduce.E(e).Op == expr.Literal && reduce.E(e).Left == any(DecimalInt(token.Val))
-//@   ensures[wildcard] token.Typ == lex.TLiteral && !IsDecimalInt(token.Val) && !IsFloatText(token.Val) && strings.ContainsAny(token.Val, "*?") ==> reduce.E(e).Op == expr.Wild && reduce.E(e).Left == any(token.Val)
-//@   ensures[unescaped-word] token.Typ == lex.TLiteral && !IsDecimalInt(token.Val) && !IsFloatText(token.Val) && !strings.ContainsAny(token.Val, "*?") ==> reduce.E(e).Op == expr.Literal && reduce.E(e).Left == any(strings.ReplaceAll(token.Val, "\\", ""))
+//@   ensures[finite-decimal-is-a-float] token.Typ == lex.TLiteral && !IsDecimalInt(token.Val) && IsNumberText(token.Val) ==> reduce.E(e).Op == expr.Literal && IsFloatVal(reduce.E(e).Left, FloatOf(token.Val))
+//@   ensures[wildcard] token.Typ == lex.TLiteral && !IsDecimalInt(token.Val) && !IsNumberText(token.Val) && strings.ContainsAny(token.Val, "*?") ==> reduce.E(e).Op == expr.Wild && reduce.E(e).Left == any(token.Val)
+//@   ensures[unescaped-word] token.Typ == lex.TLiteral && !IsDecimalInt(token.Val) && !IsNumberText(token.Val) && !strings.ContainsAny(token.Val, "*?") ==> reduce.E(e).Op == expr.Literal && reduce.E(e).Left == any(strings.ReplaceAll(token.Val, "\\", ""))
 
 // ---- reduce: pop the shortest stack suffix on which a rule fires --------------------------------
 
